@@ -42,6 +42,11 @@ PrintAlphabet(t) ==
   \cup {F2("Cup", a, b) : a \in {1, t.rows}, b \in {1, t.cols}}
   \cup {F2("Decstbm", 1, t.rows - 1), F2("Decstbm", 2, t.rows), F2("Decstbm", 0, 0)}
   \cup {FS("Sgr", <<<<48, 1>>>>), FS("Sgr", <<<<0, 0>>>>)}
+(* printing below / above a short scroll region on narrow, tall screens (every print is a wrap) *)
+PrintRegionAlphabet(t) ==
+     {F1("Print", 97), FS("Decrst", <<7>>), FS("Decset", <<6>>), F0("Cr")}
+  \cup {F2("Decstbm", a, b) : a \in 1..2, b \in 2..3} \cup {F2("Cup", a, 1) : a \in 1..t.rows}
+PrintRegionSizes == {<<1, 4>>, <<2, 4>>}
 PrintSizes == {<<1, 1>>, <<1, 2>>, <<2, 1>>, <<2, 2>>, <<3, 2>>, <<2, 3>>, <<3, 3>>}
 PrintResizes(t) == {<<c, t.rows>> : c \in {1, 2, 3} \ {t.cols}}
 
@@ -117,7 +122,7 @@ AltLeanAlphabet(t) ==
      {FS(f, <<m>>) : f \in {"Decset", "Decrst"}, m \in {1047, 1049}}
   \cup {F2("Cup", a, 1) : a \in 1..t.rows} \cup {F1("Print", 122), F0("Lf"), F2("Decstbm", 1, t.rows - 1)}
 AltSizes == {<<2, 2>>, <<3, 2>>}
-AltFills == {<<>>, Labelled(4, 2), <<65, 65, 65, 65, 65>>}
+AltFills == {<<>>, Labelled(4, 2), <<65, 65, 65, 65, 65>>, <<97, 98, 32, 32, 99, 100, 32, 32, 101>>}   \* incl. a long line with blank middle rows
 AltResizes(t) == {<<c, r>> \in {<<2, 2>>, <<2, 4>>, <<3, 3>>, <<1, 2>>, <<3, 1>>} : <<c, r>> # <<t.cols, t.rows>>}
 
 \* ------------------------------------------------- C02/C17: saved contexts x screens x resizes
